@@ -13,7 +13,9 @@ from vlib.common import Run, rng_for, hexs
 PROP = "C06"
 RULE = ("streams = grammar-generated pipelines (valid and hostile), the repository's fixtures, "
         "limit-shaped heads (at/under/over each limit, followed by bodies) under default and small-limit "
-        "configurations, chunk-heavy bodies; segmentations per stream = byte-by-byte, every single cut "
+        "configurations (incl. limit_request_fields=0), request / field / PROXY lines of exactly limit-1..limit+2 bytes, PROXY-protocol "
+        "connections under small line limits, chunk-heavy bodies; live gevent / eventlet servers answering pipelined requests sent "
+        "in one piece and in several; segmentations per stream = byte-by-byte, every single cut "
         "position, all pairs of cuts for short streams (thorough), multi-cuts at +-3 around CR/LF/:/;/chunk "
         "boundaries, random k-cuts; distinct = (stream sha1, cut vector); non-trivial = at least one cut")
 
@@ -29,7 +31,16 @@ SMALL_CFGS = [
     {"limit_request_fields": 5, "limit_request_field_size": 40, "permit_unconventional_http_method": True,
      "permit_unconventional_http_version": True, "casefold_http_method": True},
     {"limit_request_fields": 4, "header_map": "dangerous", "strip_header_spaces": True},
+    # limit_request_fields=0: whatever it means, it means the same for every segmentation
+    {"limit_request_fields": 0},
+    {"limit_request_fields": 0, "limit_request_field_size": 30, "limit_request_line": 64},
 ]
+TRUSTED_PEER = ("127.0.0.1", 5000)       # in the default proxy_allow_ips
+
+
+def fields_limit(cfgset):
+    """The field count the generators shape heads around (0 is taken as 'the maximum', as the code does)."""
+    return cfgset.get("limit_request_fields", 100) or 32768
 
 
 def cap_shaped(rng, cfgset):
@@ -76,7 +87,7 @@ def limit_shaped(rng, cfgset):
     """A request whose head sits near the configured limits, followed by a body and a
     pipelined marker request."""
     ll = cfgset.get("limit_request_line", 4094) or 200
-    nf = cfgset.get("limit_request_fields", 100)
+    nf = fields_limit(cfgset)
     fs = cfgset.get("limit_request_field_size", 8190) or 100
     ll = min(ll, 300)
     fs = min(fs, 300)
@@ -109,7 +120,7 @@ def limit_shaped(rng, cfgset):
     if framing == "cl":
         s += body
     elif framing == "chunked":
-        cap = (cfgset.get("limit_request_fields", 100)) * ((cfgset.get("limit_request_field_size", 8190) or 8190) + 2) + 4
+        cap = fields_limit(cfgset) * ((cfgset.get("limit_request_field_size", 8190) or 8190) + 2) + 4
         if cap < 2000 and rng.random() < 0.6:
             # chunk-size line / trailer section sized around the buffer cap derived from the limits
             ext = b";" + b"e" * max(0, cap + rng.choice([-4, -3, -2, -1, 0, 1, 2, 3]) - 2)
@@ -124,6 +135,66 @@ def limit_shaped(rng, cfgset):
     if rng.random() < 0.15:
         s = s[:rng.randrange(1, len(s))]          # truncated stream
     return s
+
+
+PROXY_LINES = [b"PROXY TCP4 1.2.3.4 5.6.7.8 11 22", b"PROXY TCP4 192.168.0.1 192.168.0.11 56324 443",
+               b"PROXY TCP6 ffff:ffff:ffff:ffff:ffff:ffff:ffff:ffff ffff:ffff:ffff:ffff:ffff:ffff:ffff:fff0 65535 65534",
+               b"PROXY TCP6 ::1 ::2 1 2", b"PROXY UNKNOWN", b"PROXY TCP4 1.2.3.4 5.6.7.8 11", b"PROXY TCP4 999.2.3.4 5.6.7.8 11 22",
+               b"PROXY TCP5 1.2.3.4 5.6.7.8 11 22", b"proxy tcp4 1.2.3.4 5.6.7.8 11 22", b"PROXYTCP4 1.2.3.4 5.6.7.8 11 22",
+               b"PROXY  TCP4 1.2.3.4 5.6.7.8 11 22", b"PROXY TCP4 1.2.3.4 5.6.7.8 11 22 " + b"x" * 90,
+               b"PROXY TCP4 1.2.3.4 5.6.7.8 11 22 " + b"x" * 200, b"PROXY", b"PROX"]
+
+
+def proxy_shaped(rng):
+    """A connection that opens with a PROXY protocol v1 line (valid, malformed, longer than the request-line limit), the setting on or
+    off, the peer allowed or not.  Returns (stream, cfgset, peer)."""
+    cfgset = {"proxy_protocol": rng.random() < 0.9}
+    ll = rng.choice([None, None, 20, 40, 40, 50, 107, 0])
+    if ll is not None:
+        cfgset["limit_request_line"] = ll
+    if rng.random() < 0.2:
+        cfgset.update({"limit_request_fields": 3, "limit_request_field_size": 40})
+    line = rng.choice(PROXY_LINES[:4]) if rng.random() < 0.6 else rng.choice(PROXY_LINES)
+    s = line + rng.choice([b"\r\n"] * 8 + [b"\n", b"\r"])
+    s += b"POST /a?b=c HTTP/1.1\r\nHost: example\r\nContent-Length: 5\r\n\r\nhello"
+    if rng.random() < 0.15:
+        s += rng.choice(PROXY_LINES[:3]) + b"\r\n"         # a second PROXY line is no PROXY line: it is where a request line should be
+    s += gen.marker(1, b"end")
+    if rng.random() < 0.1:
+        s = s[:rng.randrange(1, len(s))]
+    peer = TRUSTED_PEER if rng.random() < 0.9 else None
+    return s, cfgset, peer
+
+
+def at_limit_shaped(rng):
+    """One element of exactly limit-1 .. limit+2 bytes (request line, field line, PROXY line + request line) in an otherwise small,
+    well-formed request with a body and a follower: whether the limit counts the CRLF or not, it counts the same for every cut.
+    Returns (stream, cfgset, peer)."""
+    d = rng.choice([-1, 0, 0, 1, 2])
+    what = rng.choice(["line", "line", "field", "proxy+line"])
+    peer = None
+    if what == "field":
+        fs = rng.choice([10, 24, 30, 64])
+        cfgset = {"limit_request_field_size": fs}
+        if rng.random() < 0.5:
+            cfgset["limit_request_fields"] = rng.choice([0, 2, 3])
+        name = b"X-L: "
+        head = b"POST /f HTTP/1.1\r\n" + name + b"v" * max(0, fs + d - len(name)) + b"\r\nContent-Length: 5\r\n\r\n"
+    else:
+        ll = rng.choice([20, 40, 64, 100])
+        cfgset = {"limit_request_line": ll}
+        if rng.random() < 0.3:
+            cfgset["limit_request_fields"] = rng.choice([0, 3])
+        target = b"/" + b"p" * (ll + d - len(b"POST / HTTP/1.1"))
+        head = b"POST " + target + b" HTTP/1.1\r\nHost: h\r\nContent-Length: 5\r\n\r\n"
+        if what == "proxy+line":
+            cfgset["proxy_protocol"] = True
+            peer = TRUSTED_PEER
+            pl = b"PROXY TCP4 1.2.3.4 5.6.7.8 11 22"
+            if rng.random() < 0.5:
+                pl = b"PROXY TCP4 1.2.3.4 5.6.7.8 " + b"1" * max(1, ll + rng.choice([-1, 0, 1, 2]) - 34) + b" 22"
+            head = pl + b"\r\n" + head
+    return head + b"hello" + gen.marker(1, b"end"), cfgset, peer
 
 
 def special_positions(stream):
@@ -173,9 +244,11 @@ def reader_of(k):
     return lambda b: b.read(k) if k else b""
 
 
-def check_stream(run, e1, stream, cfgset, tier, rng, origin, vectors=None, readk=None):
+def check_stream(run, e1, stream, cfgset, tier, rng, origin, vectors=None, readk=None, peer=None):
     cfg = e1.make_cfg(**cfgset)
     kw = {} if readk is None else {"consumer": reader_of(readk)}
+    if peer is not None:
+        kw["peer"] = tuple(peer)         # (an allowed PROXY-protocol sender; the default peer is not on the allow list)
     if readk is not None:
         run.count("streams_with_body_left_unread")
     base = e1.observe(cfg, gen.cut(stream, []), **kw)
@@ -211,14 +284,14 @@ def check_stream(run, e1, stream, cfgset, tier, rng, origin, vectors=None, readk
                                   "the same bytes are refused as %s when delivered whole and as %s with cuts %s | cfg=%s stream=%s" % (
                                       base["terminal"][1], obs["terminal"][1], cuts[:8], cfgset, hexs(stream[:120])),
                                   {"stream": stream.hex() if len(stream) < 30000 else stream[:30000].hex(), "cfg": cfgset, "cuts": list(cuts),
-                                   "origin": origin, "readk": readk})
+                                   "origin": origin, "readk": readk, "peer": peer})
         if e1.obs_signature(obs) != bsig:
             nbad += 1
             if nbad <= 2:
                 mech = classify(base, obs)
                 run.violation(mech, "segmentation changes the result: whole=%s cut%s=%s | cfg=%s stream=%s" % (
                     brief(base), cuts[:8], brief(obs), cfgset, hexs(stream[:200])),
-                    {"stream": stream.hex(), "cfg": cfgset, "cuts": list(cuts), "origin": origin, "readk": readk})
+                    {"stream": stream.hex(), "cfg": cfgset, "cuts": list(cuts), "origin": origin, "readk": readk, "peer": peer})
     return nbad
 
 
@@ -297,12 +370,158 @@ def worker_shard(run, sh):
     return run
 
 
+LIVE_APP = r"""
+import hashlib
+
+def app(environ, start_response):
+    body = environ["wsgi.input"].read()
+    out = ("%s %s %d %s" % (environ["REQUEST_METHOD"], environ["RAW_URI"], len(body), hashlib.sha1(body).hexdigest()[:12])).encode()
+    start_response("200 OK", [("Content-Type", "text/plain"), ("Content-Length", str(len(out)))])
+    return [out]
+"""
+LIVE_KEEPALIVE = 2
+
+
+def live_stream(rng):
+    """2-4 well-formed pipelined requests (no body / Content-Length / chunked), the last one asking for the connection to be closed.
+    Returns (stream, offsets at which the requests start)."""
+    n = rng.choice([2, 2, 3, 4])
+    parts = []
+    for i in range(n):
+        last = b"Connection: close\r\n" if i == n - 1 else b""
+        kind = rng.choice(["get", "get", "cl", "chunked"])
+        if kind == "get":
+            parts.append(b"GET /r%d?live HTTP/1.1\r\nHost: h\r\n%s\r\n" % (i, last))
+        else:
+            body = bytes(rng.choice(b"abcdefgh\n") for _ in range(rng.choice([1, 5, 40, 300, 2000])))
+            if kind == "cl":
+                parts.append(b"POST /r%d HTTP/1.1\r\nHost: h\r\n%sContent-Length: %d\r\n\r\n" % (i, last, len(body)) + body)
+            else:
+                parts.append(b"POST /r%d HTTP/1.1\r\nHost: h\r\n%sTransfer-Encoding: chunked\r\n\r\n" % (i, last) +
+                             gen.chunk_encode(rng, body, rng.choice(["one", "many"])) + b"0\r\n\r\n")
+    starts, pos = [], 0
+    for part in parts:
+        starts.append(pos)
+        pos += len(part)
+    return b"".join(parts), starts
+
+
+def split_responses(buf):
+    """[(status line, body)] of the Content-Length framed responses in buf (+ a last entry 'partial' if bytes are left over)."""
+    out, pos = [], 0
+    while pos < len(buf):
+        e = buf.find(b"\r\n\r\n", pos)
+        if e < 0:
+            out.append(("partial", buf[pos:pos + 60]))
+            break
+        lines = buf[pos:e].split(b"\r\n")
+        n = 0
+        for ln in lines[1:]:
+            if ln.lower().startswith(b"content-length:"):
+                n = int(ln.split(b":", 1)[1])
+        out.append((lines[0].decode("latin-1"), buf[e + 4:e + 4 + n].decode("latin-1")))
+        pos = e + 4 + n
+    return out
+
+
+def live_exchange(e4, addr, stream, cuts, delay, wait):
+    """Send the stream in the given pieces over one connection that the client keeps open; returns (responses, seconds, how it ended)."""
+    import socket
+    import time
+    t0 = time.time()
+    s = e4.connect(addr, 5)
+    buf, how, slow = b"", "eof", False
+    try:
+        prev = 0
+        for c in list(cuts) + [len(stream)]:
+            s.sendall(stream[prev:c])
+            prev = c
+            if c < len(stream):
+                time.sleep(delay)
+        slow = time.time() - t0 > LIVE_KEEPALIVE * 0.4
+        s.settimeout(wait)
+        while True:
+            d = s.recv(65536)
+            if not d:
+                break
+            buf += d
+    except socket.timeout:
+        how = "timeout"
+    except OSError as e:
+        how = "error:%s" % type(e).__name__
+    finally:
+        s.close()
+    if slow:
+        how = "slow-client"     # (a loaded machine held the client up for a time comparable to the keep-alive time: not a fair run)
+    return split_responses(buf), time.time() - t0, how
+
+
+def live_shard(run, sh):
+    """The same comparison against real gevent / eventlet servers (their keep-alive loop lives in workers/base_async.py and runs under
+    the worker's own timer and patched sockets, which the in-process harness cannot reproduce): what is answered must not depend on
+    whether the pipelined requests arrive in one piece or in several."""
+    from vlib import e4_live as e4
+    wc = sh["class"]
+    rng = rng_for(sh["seed"], "c06-live", wc)
+    srv = e4.Server("c06", worker_class=wc, workers=1, settings={"keepalive": LIVE_KEEPALIVE, "graceful_timeout": 2, "timeout": 30},
+                    app_source=LIVE_APP, env={"VERIF_REPO": common.REPO})
+    try:
+        srv.start()
+        if not srv.wait_workers(1, 25) or not srv.wait_listening(5):
+            run.inconclusive_because("live server (%s) did not boot: %s" % (wc, srv.stderr()[-200:]))
+            return run
+        nviol = 0
+        for k in range(sh["n"]):
+            if nviol >= 3:
+                break
+            stream, starts = live_stream(rng)
+            n = len(stream)
+            vectors = [[starts[1]], starts[1:], [rng.randint(1, starts[1] - 1)], [rng.randint(starts[1] + 1, n - 1)],
+                       sorted(set(rng.randint(1, n - 1) for _ in range(rng.randint(2, 4)))),
+                       [starts[1] - 2, starts[1] + 3], [starts[-1] - rng.randint(0, 3)]]
+            base, secs, how = live_exchange(e4, srv.addr, stream, [], 0.0, LIVE_KEEPALIVE + 3.0)
+            run.count("live_connections")
+            if len(base) == len(starts) and all(r[0].startswith("HTTP/1.1 200") for r in base):
+                run.count("live_one_piece_all_answered")
+            for cuts in vectors:
+                cuts = [c for c in cuts if 0 < c < n]
+                got, secs2, how2 = live_exchange(e4, srv.addr, stream, cuts, rng.choice([0.005, 0.02, 0.05]), LIVE_KEEPALIVE + 3.0)
+                run.case((common.sha12(stream), tuple(cuts), wc))
+                run.count("live_connections")
+                run.count("live_segmentations")
+                run.count("live_class/" + wc)
+                if "slow-client" in (how, how2):
+                    run.count("live_skipped_slow_client")
+                    continue
+                if got != base:
+                    # once more, both ways: what the tree does to these bytes repeats, what a busy machine did to one run does not
+                    base_b, _s, how_b = live_exchange(e4, srv.addr, stream, [], 0.0, LIVE_KEEPALIVE + 3.0)
+                    got_b, _s, how2_b = live_exchange(e4, srv.addr, stream, cuts, 0.02, LIVE_KEEPALIVE + 3.0)
+                    if (base_b, got_b) != (base, got) or "slow-client" in (how_b, how2_b):
+                        run.count("live_difference_not_repeated")
+                        continue
+                    nviol += 1
+                    run.violation("live/segmentation-changes-what-is-answered",
+                                  "%s server, %d pipelined requests (%d bytes): sent in one piece -> %s (%.1fs, %s); sent with cuts %s -> %s "
+                                  "(%.1fs, %s)" % (wc, len(starts), n, base, secs, how, cuts, got, secs2, how2),
+                                  {"stream": stream.hex(), "cfg": {}, "cuts": cuts, "origin": "live", "worker": wc})
+                    break
+        if not srv.worker_pids():
+            run.violation("live/worker-died", "no worker left after the sample: %s" % srv.error_log()[-300:],
+                          {"stream": "", "cfg": {}, "cuts": [], "origin": "live", "worker": wc})
+    finally:
+        srv.cleanup()
+    return run
+
+
 def shard(sh):
     from vlib import e1_wire as e1
     tier = sh.get("tier", "quick")
     run = Run(PROP, tier, sh["seed"], "exploration", RULE)
     if sh["kind"] == "workers":
         return worker_shard(run, sh)
+    if sh["kind"] == "live":
+        return live_shard(run, sh)
     rng = rng_for(sh["seed"], "c06", sh["kind"], sh["sub"])
     kind = sh["kind"]
     if kind == "gram":
@@ -330,6 +549,7 @@ def shard(sh):
             if run.enough():
                 break
             cfgset = rng.choice(SMALL_CFGS + [{}])
+            peer = None
             if k % 12 == 5:
                 cfgset = rng.choice([{"limit_request_fields": 2, "limit_request_field_size": 0},
                                      {"limit_request_fields": 1, "limit_request_field_size": 0, "limit_request_line": 0}])
@@ -339,9 +559,19 @@ def shard(sh):
                 cfgset = rng.choice([{}, {}, SMALL_CFGS[0]])
                 s = binary_stream(rng)
                 run.count("binary_streams")
+            elif k % 12 == 3:
+                s, cfgset, peer = proxy_shaped(rng)
+                run.count("proxy_line_streams")
+                if cfgset.get("proxy_protocol") and 0 < cfgset.get("limit_request_line", 4094) < s.find(b"\r\n") <= 105:
+                    run.count("proxy_line_longer_than_line_limit")
+            elif k % 12 in (1, 9):
+                s, cfgset, peer = at_limit_shaped(rng)
+                run.count("at_limit_element_streams")
             else:
                 s = limit_shaped(rng, cfgset)
-            check_stream(run, e1, s, cfgset, tier, rng, "limit", readk=rng.choice([None, None, None, 0, 3, 100]))
+            if not cfgset.get("limit_request_fields", 100):
+                run.count("streams_under_fields_limit_zero")
+            check_stream(run, e1, s, cfgset, tier, rng, "limit", readk=rng.choice([None, None, None, 0, 3, 100]), peer=peer)
             run.count("limit_shaped_streams")
             if k == 0:
                 run.sample({"class": "limit-shaped", "stream": hexs(s[:300]), "cfg": cfgset})
@@ -373,7 +603,8 @@ def main(tier, seed):
     run.require("segmentations", "streams_with_accepted_request", "streams_rejected",
                 "streams_premature_end", "streams_with_trailers", "streams_pipelined",
                 "limit_shaped_streams", "big_streams", "streams_with_body_left_unread", "cap_shaped_streams", "binary_streams", "worker_segmentations",
-                "worker_segmentations_keepalive")
+                "worker_segmentations_keepalive", "proxy_line_streams", "proxy_line_longer_than_line_limit", "at_limit_element_streams",
+                "streams_under_fields_limit_zero", "live_segmentations", "live_class/gevent", "live_class/eventlet", "live_one_piece_all_answered")
     q = tier == "quick"
     shards = []
     for sub in range(24 if q else 96):
@@ -384,12 +615,16 @@ def main(tier, seed):
         shards.append({"kind": "limit", "n": 60 if q else 300, "sub": sub, "seed": seed, "tier": tier})
     for sub in range(6 if q else 16):
         shards.insert(0, {"kind": "workers", "n": 60 if q else 1500, "sub": sub, "seed": seed, "tier": tier})
+    for wc in ("gevent", "eventlet"):
+        shards.insert(0, {"kind": "live", "class": wc, "n": 10 if q else 150, "seed": seed, "tier": tier})
     for sub in range(8 if q else 32):
         shards.append({"kind": "big", "n": 8 if q else 30, "sub": sub, "seed": seed, "tier": tier})
     run.assumptions = [
         "baseline = the stream delivered in 8192-byte pieces; every other segmentation must give the same observation",
         "the exception class of a rejection is recorded but not compared; the index of the rejected message is",
         "pieces are non-empty and at most 8192 bytes, as the property quantifies",
+        "live part: a piece is one send() on a connection the client keeps open, pieces 5-50 ms apart (far below the keep-alive time); "
+        "what the server answers before it closes must equal what it answers to the same bytes sent at once",
     ]
     common.run_sharded(run, shards, timeout=900 if q else 7200)
     return run.finish()
@@ -402,6 +637,29 @@ def replay(path):
     c = rec["case"]
     stream = bytes.fromhex(c["stream"])
     run = Run(PROP, "quick", 0, "exploration", RULE)
+    if c.get("origin") == "live" and not stream:
+        print("witness without a stream (the live worker died during the sample): re-run the check")
+        return 1
+    if c.get("origin") == "live":
+        from vlib import e4_live as e4
+        srv = e4.Server("c06", worker_class=c["worker"], workers=1, settings={"keepalive": LIVE_KEEPALIVE, "graceful_timeout": 2, "timeout": 30},
+                        app_source=LIVE_APP, env={"VERIF_REPO": common.REPO})
+        try:
+            srv.start()
+            if not srv.wait_workers(1, 25) or not srv.wait_listening(5):
+                print("server did not boot")
+                return 2
+            a = live_exchange(e4, srv.addr, stream, [], 0.0, LIVE_KEEPALIVE + 3.0)
+            b = live_exchange(e4, srv.addr, stream, c["cuts"], 0.02, LIVE_KEEPALIVE + 3.0)
+        finally:
+            srv.cleanup()
+        print("one piece:", a)
+        print("cuts %s:" % c["cuts"], b)
+        if a[0] != b[0]:
+            print("VIOLATION property=%s replay=%s\n  live/segmentation-changes-what-is-answered" % (PROP, path))
+            return 1
+        print("no violation on replay")
+        return 0
     if c.get("origin") == "workers":
         from vlib import e2_worker as e2
         from checks.c01 import _RecApp
@@ -422,7 +680,8 @@ def replay(path):
             return 1
         print("no violation on replay")
         return 0
-    n = check_stream(run, e1, stream, c["cfg"], "quick", rng_for(0, "replay"), "replay", vectors=[c["cuts"]], readk=c.get("readk"))
+    n = check_stream(run, e1, stream, c["cfg"], "quick", rng_for(0, "replay"), "replay", vectors=[c["cuts"]], readk=c.get("readk"),
+                     peer=c.get("peer"))
     for mech, s, _ in run.violations:
         print("VIOLATION property=%s replay=%s\n  %s %s" % (PROP, path, mech, s))
     if not n:
